@@ -266,7 +266,7 @@ Section DeepCopy.
     | VMeth f s => VMeth f s            (* _deepcopy_method: same function, copied receiver *)
     | VInst c d =>
         (* DeepCopyMethod.deepcopy *)
-        if c_frozen (ct c) || c_dnc (ct c) then v
+        if c_dnc (ct c) then v           (* `if self.__spec_class__.do_not_copy: return self` *)
         else VInst c
                (flat_map (fun xv =>
                   if is_self_meth (snd xv)                  (* ismethod and __self__ is self *)
